@@ -35,6 +35,7 @@ type RunConfig struct {
 	StopAfterViol   int
 	MaxWallS        int
 	IntEncoding     bool
+	LabelPrefix     string
 	Params          map[string]int64 // harness parameters (verifrt.Param)
 }
 
